@@ -371,7 +371,37 @@ fn mode_struct(seed: u64, n: u64) {
 // ------------------------------------------------------------------ bytes mode
 struct ByteStats { dist: BTreeMap<String, BTreeMap<String, u64>>, classes: BTreeMap<String, u64>, exec: BTreeMap<&'static str, u64>, runs: u64, insts: u64, accepted_mutants: u64, violations: u64 }
 
+/// Digest of the skeleton as parse_skeleton sees it: "id:len" of the non-custom sections (by id) and of the
+/// custom sections (input order), read from the Debug rendering (the fields are crate-private).
+fn skel_digest(bytes: &[u8]) -> String {
+    use concordium_wasm::parse::parse_skeleton;
+    match guarded(|| parse_skeleton(bytes).map(|s| format!("{:?}", s)).map_err(|e| format!("{:#}", e))) {
+        Err(p) => format!("PANIC:{}", p),
+        Ok(Err(e)) => format!("err:{}", err_class(&e)),
+        Ok(Ok(d)) => {
+            let mut out: Vec<String> = vec![];
+            let mut rest = d.as_str();
+            while let Some(p) = rest.find("section_id: ") {
+                rest = &rest[p + 12..];
+                let name: String = rest.chars().take_while(|c| c.is_alphanumeric()).collect();
+                let q = match rest.find("], len: ") { Some(q) => q, None => break };
+                rest = &rest[q + 8..];
+                let len: String = rest.chars().take_while(|c| c.is_ascii_digit()).collect();
+                let id = match name.as_str() { "Custom" => 0, "Type" => 1, "Import" => 2, "Function" => 3, "Table" => 4, "Memory" => 5, "Global" => 6, "Export" => 7, "Start" => 8, "Element" => 9, "Code" => 10, "Data" => 11, _ => 99 };
+                out.push(format!("{}:{}", id, len));
+            }
+            format!("ok:{}", out.join(","))
+        }
+    }
+}
+
 fn byte_case(stats: &mut ByteStats, id: &str, kind: &str, bytes: &[u8], expect: Option<bool>, full: bool) {
+    if bytes.len() <= 65536 {
+        // per-case line for the parser model (Wasm/Parse.v): verdicts with the permissive import validator + skeleton
+        let r0 = instantiate(ValidationConfig::V0, Imp::All, false, bytes);
+        let r1 = instantiate(ValidationConfig::V1, Imp::All, false, bytes);
+        println!("{}", json!({"pc": id, "kind": kind, "b": hex(bytes), "v0": verdict(&r0), "v1": verdict(&r1), "skel": skel_digest(bytes)}));
+    }
     let mut any_ok = false;
     let cfgs: &[(ValidationConfig, &str)] = &[(ValidationConfig::V0, "V0"), (ValidationConfig::V1, "V1")];
     let imps: &[Imp] = if full { &[Imp::All, Imp::V0, Imp::V1] } else { &[Imp::All] };
